@@ -243,7 +243,7 @@ jwk_prep_execute(jose_cfg_t *cfg, json_t *jwk)
     if (len == 0)
         return false;
 
-    if (byt != 0 && len != byt)
+    if (json_object_get(jwk, "bytes") && len != byt)
         return false;
 
     if (kty && strcmp(kty, "oct") != 0)
